@@ -966,6 +966,247 @@ Proof.
     intros i Hi Hv. apply weaken_after_opt; assumption.
 Qed.
 
+(* ------------------------------------------------------------------ switch *)
+
+Lemma nth_error_skipn {A} (l : list A) : forall i x, nth_error l i = Some x -> exists l', skipn i l = x :: l'.
+Proof.
+  induction l as [|a l IH]; intros [|i] x H; simpl in *; try discriminate; [inversion H; eauto | apply IH; exact H].
+Qed.
+
+Lemma default_index_none cls : forall k, (forall c, In c cls -> is_default c = false) -> default_index cls k = None.
+Proof.
+  induction cls as [|c cls IH]; intros k H; simpl; [reflexivity|].
+  assert (Hc := H c (or_introl eq_refl)).
+  destruct c; try (apply IH; intros c' Hc'; apply H; right; exact Hc').
+  destruct ce; try (apply IH; intros c' Hc'; apply H; right; exact Hc'). discriminate.
+Qed.
+
+Lemma default_index_at cls : forall k j c, nth_error cls j = Some c -> is_default c = true ->
+  (forall i c', i < j -> nth_error cls i = Some c' -> is_default c' = false) -> default_index cls k = Some (k + j).
+Proof.
+  induction cls as [|c0 cls IH]; intros k [|j] c Hn Hd Hb; simpl in Hn; try discriminate.
+  - inversion Hn; subst. destruct c; try discriminate. destruct ce; try discriminate. simpl. f_equal. lia.
+  - assert (H0 : is_default c0 = false) by (apply (Hb 0 c0); [lia | reflexivity]).
+    assert (IH' := IH (S k) j c Hn Hd (fun i c' Hi Hc' => Hb (S i) c' (proj1 (Nat.succ_lt_mono _ _) Hi) Hc')).
+    replace (k + S j) with (S k + j) by lia. rewrite <- IH'.
+    destruct c0; try reflexivity. destruct ce; try reflexivity. discriminate.
+Qed.
+
+Lemma shape_nth t cls : shape_ok t cls = true -> forall j c, nth_error cls j = Some c ->
+  exists ce body, c = SCase ce body false /\ ce_ok t ce = true /\ (S j < length cls -> is_default c = false).
+Proof.
+  induction cls as [|c0 cls IH]; intros Hs [|j] c Hn; simpl in Hn; try discriminate.
+  - inversion Hn; subst c0. simpl in Hs. destruct c; try discriminate.
+    apply andb_prop in Hs. destruct Hs as [Hs Hrest]. apply andb_prop in Hs. destruct Hs as [Hs Hdef].
+    apply andb_prop in Hs. destruct Hs as [Hce Hft].
+    destruct ft; [discriminate|]. exists ce, body. split; [reflexivity|]. split; [exact Hce|].
+    intros Hl. destruct cls as [|c1 cls]; [simpl in Hl; lia|]. apply negb_true_iff in Hdef. exact Hdef.
+  - simpl in Hs. destruct c0; try discriminate.
+    apply andb_prop in Hs. destruct Hs as [Hs Hrest].
+    destruct (IH Hrest j c Hn) as [ce' [body' [-> [A B]]]]. exists ce', body'. repeat split; auto.
+    intros Hl. apply B. simpl in Hl. lia.
+Qed.
+
+(** The nodes of clause [j] of a switch without a tag. *)
+Lemma switch_embed init cls g sc nx K P j ce body ft :
+  (forall q, g (P ++ q) = snode_at q (SSwitch init None cls) sc nx K P) ->
+  nth_error cls j = Some (SCase ce body ft) ->
+  let sc1 := fst (salloc_opt init sc nx) in
+  let n1 := snd (salloc_opt init sc nx) in
+  let nj := snd (salloc_list (firstn j cls) sc1 n1) in
+  let pc := (P ++ [2]) ++ [j] in
+  let next := nth_error cls (S j) in
+  let r := clause_ref (SCase ce body ft) next P pc ((P ++ [2]) ++ [S j]) in
+  let wi := wire_caseif (clause_empty (SCase ce body ft)) (Nat.ltb 0 (clause_exprs (SCase ce body ft)))
+              (negb (is_some next)) (is_some next && ft) in
+  g pc = Some (mknode XNop (r (ci_tnext wi)) (r (ci_fnext wi))) /\
+  (forall q, g ((pc ++ [0]) ++ q) =
+     snode_at q (SBlock (case_body body ft)) sc1 (calloc ce sc1 nj) (mkctx (r (ci_body_t wi)) (Some P) (k_cont K)) (pc ++ [0])) /\
+  (forall e l, ce = CBools (e :: l) -> forall q, g ((pc ++ [1]) ++ q) =
+     bnode_at q e sc1 nj (pc ++ [1]) (r (ci_cond_t wi)) (r (ci_cond_f wi))).
+Proof.
+  intros G Hn. cbv zeta.
+  pose proof (sub_embed _ _ 2 _ G) as G2. pose proof (sub_embed _ _ j _ G2) as Gj.
+  split; [|split].
+  - rewrite (app_nil_path _ _ _ Gj). simpl. destruct (salloc_opt init sc nx). rewrite Hn. reflexivity.
+  - intros q. rewrite (sub_embed _ _ 0 _ Gj). simpl. destruct (salloc_opt init sc nx). rewrite Hn. reflexivity.
+  - intros e l -> q. rewrite (sub_embed _ _ 1 _ Gj). simpl. destruct (salloc_opt init sc nx). rewrite Hn. reflexivity.
+Qed.
+
+Lemma switch_case n : P_exec n -> P_list n ->
+  forall init tag cls g sc nx K P E fr out o E' out',
+    exec (S n) (SSwitch init tag cls) E out = Res o E' out' ->
+    (forall q, g (P ++ q) = snode_at q (SSwitch init tag cls) sc nx K P) -> wf (SSwitch init tag cls) = true ->
+    agree E sc fr -> scope_ok sc nx ->
+    exists r, reach g (Some (sstart (SSwitch init tag cls) P)) fr out r /\ post_ok K sc nx sc fr o E' out' r.
+Proof.
+  intros IHe IHl init tag cls g sc nx K P E fr out o E' out' H G Hwf Hag Hok.
+  rewrite exec_switch_eq in H.
+  pose proof (app_nil_path _ _ _ G) as G0. simpl in G0.
+  simpl in Hwf.
+  apply andb_prop in Hwf. destruct Hwf as [Hwf Wb]. apply andb_prop in Hwf. destruct Hwf as [Hwf Wtag].
+  apply andb_prop in Hwf. destruct Hwf as [Hwf Wshape]. apply andb_prop in Hwf. destruct Hwf as [Hwf Wne].
+  apply andb_prop in Hwf. destruct Hwf as [Hwf Wleaf]. apply andb_prop in Hwf. destruct Hwf as [Si Wi].
+  destruct tag as [t|]; [discriminate|]. clear Wtag Wleaf. simpl in Wshape.
+  destruct cls as [|c0 cls']; [discriminate|]. clear Wne.
+  set (cls := c0 :: cls') in *.
+  set (N := Some (sstart c0 ((P ++ [2]) ++ [0]))).
+  assert (Start : Some (sstart (SSwitch init None cls) P) =
+                  match init with Some s0 => Some (sstart s0 (P ++ [0])) | None => N end).
+  { destruct init; reflexivity. }
+  assert (Gi : forall s0, init = Some s0 -> forall q, g ((P ++ [0]) ++ q) =
+             snode_at q s0 sc nx (mkctx N (k_brk K) (k_cont K)) (P ++ [0])).
+  { intros s0 -> q. rewrite (sub_embed _ _ 0 _ G). simpl. destruct (salloc s0 sc nx). reflexivity. }
+  (* stage 1: init *)
+  destruct (exec_opt n init E out) as [|o1 E1 out1] eqn:Hinit; [discriminate|].
+  assert (Wi' : forall s0, init = Some s0 -> wf s0 = true) by (intros s0 ->; exact Wi).
+  destruct (init_stage n IHe init g sc nx (k_brk K) (k_cont K) N (P ++ [0])
+              E fr out o1 E1 out1 Hinit Gi Si Wi' Hag Hok) as [r1 [R1 Post1]].
+  rewrite <- Start in R1.
+  pose proof (salloc_opt_ok init sc nx Hok) as Hok1.
+  pose proof (salloc_opt_mono init sc nx) as Mi.
+  destruct o1; try (destruct Post1 as [? [_ [Hc _]]]; discriminate).
+  2:{ inversion H; subst. eexists. split; [exact R1 | reflexivity]. }
+  destruct Post1 as [fr1 [-> [_ [Pr1 Ag1]]]].
+  simpl eval_tag in H. cbv iota in H.
+  assert (Final : forall fr3 out3, reach g (Some P) fr3 out3 (MRun (k_next K) fr3 out3)).
+  { intros. apply reach_one. unfold step. rewrite G0. reflexivity. }
+  set (entry := fun j => match nth_error cls j with Some c => Some (sstart c ((P ++ [2]) ++ [j])) | None => Some P end).
+  (* stage 2: the chain of clauses *)
+  assert (Chain : forall k j, j + k = length cls ->
+     (forall i c', i < j -> nth_error cls i = Some c' -> is_default c' = false) ->
+     forall fr3, (forall i, i < snd (salloc_opt init sc nx) -> fr3 i = fr1 i) ->
+     match select E1 None (skipn j cls) j with
+     | None => reach g (entry j) fr3 out1 (MPanic out1)
+     | Some sel => exists fr4, (forall i, i < snd (salloc_opt init sc nx) -> fr4 i = fr1 i) /\
+         match (match sel with Some i => Some i | None => default_index cls 0 end) with
+         | Some i => exists ce body ft, nth_error cls i = Some (SCase ce body ft) /\
+             reach g (entry j) fr3 out1 (MRun (Some (clause_body_start (SCase ce body ft) P ((P ++ [2]) ++ [i]))) fr4 out1)
+         | None => reach g (entry j) fr3 out1 (MRun (Some P) fr4 out1)
+         end
+     end).
+  { induction k as [|k IHk]; intros j Hj Hnd fr3 Hinv.
+    - assert (j = length cls) by lia. subst j. rewrite skipn_all. simpl select.
+      unfold entry. rewrite (proj2 (nth_error_None cls (length cls))) by lia.
+      exists fr3. split; [exact Hinv|].
+      rewrite default_index_none; [apply reach_refl|].
+      intros c Hc. apply In_nth_error in Hc. destruct Hc as [i Hi]. eapply Hnd; [|exact Hi].
+      apply nth_error_Some. congruence.
+    - destruct (skipn j cls) as [|c l] eqn:Hsk.
+      { pose proof (skipn_nil_length _ _ Hsk). lia. }
+      destruct (skipn_cons_nth _ _ _ _ Hsk) as [Hnth [Hsk' HSj]].
+      destruct (shape_nth _ _ Wshape j c Hnth) as [ce [body [-> [Hce Hlast]]]].
+      destruct (switch_embed init cls g sc nx K P j ce body false G Hnth) as [Gn [Gb Gc]].
+      assert (Ag3 : agree E1 (fst (salloc_opt init sc nx)) fr3).
+      { eapply agree_below; [exact Ag1 | exact (proj1 Hok1) | exact Hinv]. }
+      pose proof (salloc_list_mono (firstn j cls) (fst (salloc_opt init sc nx)) (snd (salloc_opt init sc nx))) as Mj.
+      unfold entry at 1 2 3. rewrite Hnth.
+      destruct ce as [|l0|l0]; simpl in Hce.
+      + (* default: the last clause *)
+        assert (HS : S j = length cls).
+        { destruct (Nat.eq_dec (S j) (length cls)) as [e|ne]; [exact e|].
+          assert (Hd : is_default (SCase CDefault body false) = false) by (apply Hlast; lia). discriminate. }
+        simpl select. rewrite <- Hsk', HS, skipn_all. simpl select.
+        rewrite (default_index_at cls 0 j _ Hnth eq_refl Hnd). simpl.
+        exists fr3. split; [exact Hinv|]. exists CDefault, body, false. split; [exact Hnth|].
+        destruct body as [|s0 body'].
+        * apply reach_one. unfold step. simpl. rewrite Gn. reflexivity.
+        * apply reach_refl.
+      + destruct l0; discriminate.
+      + destruct l0 as [|e [|e' l1]]; try discriminate.
+        pose proof (bsim e g _ _ _ _ _ E1 fr3 out1 (Gc e [] eq_refl) Ag3
+                      (bounded_mono _ _ _ (proj1 Hok1) Mj)) as B.
+        simpl select. simpl sstart.
+        assert (Hnd' : forall i c', i < S j -> nth_error cls i = Some c' -> is_default c' = false).
+        { intros i c' Hi Hc'. destruct (Nat.eq_dec i j) as [->|ne]; [|apply (Hnd i c'); [lia | exact Hc']].
+          rewrite Hnth in Hc'. inversion Hc'; reflexivity. }
+        destruct (beval E1 e) as [[|]|].
+        * destruct B as [fr4 [R4 [_ F4]]].
+          exists fr4. split; [intros i Hi; rewrite F4 by lia; apply Hinv; exact Hi|].
+          exists (CBools [e]), body, false. split; [exact Hnth|].
+          destruct (nth_error cls (S j)); exact R4.
+        * destruct B as [fr4 [R4 [_ F4]]].
+          assert (Hinv4 : forall i, i < snd (salloc_opt init sc nx) -> fr4 i = fr1 i).
+          { intros i Hi. rewrite F4 by lia. apply Hinv. exact Hi. }
+          specialize (IHk (S j) ltac:(lia) Hnd' fr4 Hinv4). rewrite Hsk' in IHk.
+          assert (R4' : reach g (Some (bstart e (((P ++ [2]) ++ [j]) ++ [1]))) fr3 out1 (MRun (entry (S j)) fr4 out1)).
+          { unfold entry. destruct (nth_error cls (S j)); exact R4. }
+          destruct (select E1 None l (S j)) as [sel|].
+          -- destruct IHk as [fr5 [Hinv5 Hm]]. exists fr5. split; [exact Hinv5|].
+             destruct (match sel with Some i => Some i | None => default_index cls 0 end) as [i|].
+             ++ destruct Hm as [ce' [b' [ft' [Hn' R']]]]. exists ce', b', ft'. split; [exact Hn'|].
+                eapply reach_trans; [exact R4' | exact R'].
+             ++ eapply reach_trans; [exact R4' | exact Hm].
+          -- eapply reach_trans; [exact R4' | exact IHk].
+        * exact B. }
+  specialize (Chain (length cls) 0 eq_refl (fun i c' Hi _ => match Nat.nlt_0_r i Hi with end) fr1 (fun i _ => eq_refl)).
+  change (skipn 0 cls) with cls in Chain.
+  assert (E0 : entry 0 = N) by reflexivity. rewrite E0 in Chain.
+  (* leaving the switch *)
+  assert (Leave : forall fr5 E2 Ext Eb, E2 = Ext ++ Eb -> agree Eb (fst (salloc_opt init sc nx)) fr5 ->
+            agree (restore E (restore E1 E2)) sc fr5).
+  { intros fr5 E2 Ext Eb HE AgB.
+    rewrite (agree_restore _ _ _ _ _ _ _ Ag1 HE AgB).
+    exact (leave_scope init sc nx E fr Eb [] Eb fr5 Hag eq_refl AgB). }
+  destruct (select E1 None cls 0) as [sel|].
+  2:{ inversion H; subst. eexists. split; [eapply reach_trans; [exact R1 | exact Chain] | reflexivity]. }
+  destruct Chain as [fr4 [Hinv4 Hm]].
+  assert (Ag4 : agree E1 (fst (salloc_opt init sc nx)) fr4).
+  { eapply agree_below; [exact Ag1 | exact (proj1 Hok1) | exact Hinv4]. }
+  assert (Pr4 : preserved fr fr4 sc nx).
+  { eapply preserved_trans; [exact Pr1|]. apply preserved_below. intros i Hi. apply Hinv4. lia. }
+  destruct (match sel with Some i => Some i | None => default_index cls 0 end) as [i|].
+  2:{ (* no clause selected *)
+      inversion H; subst o E' out'; clear H.
+      eexists. split; [eapply reach_trans; [exact R1|]; eapply reach_trans; [exact Hm | apply Final]|].
+      pose proof (leave_scope init sc nx E fr E1 [] E1 fr4 Hag eq_refl Ag4) as L.
+      simpl. eexists. split; [reflexivity|]. split; [exact Pr4|]. split; [exists [], (restore E E1); auto | auto]. }
+  destruct Hm as [ce [body [ft [Hnth R4]]]].
+  destruct (shape_nth _ _ Wshape i _ Hnth) as [ce0 [body0 [Heq [Hce _]]]]. inversion Heq; subst ce0 body0 ft; clear Heq.
+  destruct (nth_error_skipn _ _ _ Hnth) as [l' Hsk]. rewrite Hsk in H. simpl run_clauses in H.
+  destruct (switch_embed init cls g sc nx K P i ce body false G Hnth) as [_ [Gb _]].
+  assert (Wbody : forallb wf body = true).
+  { rewrite forallb_forall in Wb. exact (Wb _ (nth_error_In _ _ Hnth)). }
+  destruct (exec_list n body E1 out1) as [|o2 E2 out2] eqn:Hb; [discriminate|].
+  assert (Pre : reach g (Some (sstart (SSwitch init None cls) P)) fr out
+                  (MRun (Some (clause_body_start (SCase ce body false) P ((P ++ [2]) ++ [i]))) fr4 out1)).
+  { eapply reach_trans; [exact R1 | exact R4]. }
+  destruct body as [|s0 body'].
+  - (* empty body *)
+    destruct n; [discriminate|]. simpl in Hb. inversion Hb; subst o2 E2 out2; clear Hb.
+    inversion H; subst o E' out'; clear H.
+    eexists. split; [eapply reach_trans; [exact Pre | apply Final]|].
+    pose proof (Leave fr4 E1 [] E1 eq_refl Ag4) as L.
+    simpl. eexists. split; [reflexivity|]. split; [exact Pr4|]. split; [eexists [], _; split; [reflexivity | exact L] | intros _; exact L].
+  - simpl in Gb. rewrite ?Bool.andb_false_r in Gb. simpl in Gb.
+    set (body := s0 :: body') in *.
+    pose proof (salloc_list_mono (firstn i cls) (fst (salloc_opt init sc nx)) (snd (salloc_opt init sc nx))) as Mj.
+    pose proof (calloc_mono ce (fst (salloc_opt init sc nx)) (snd (salloc_list (firstn i cls) (fst (salloc_opt init sc nx)) (snd (salloc_opt init sc nx))))) as Mc.
+    assert (Hokb : scope_ok (fst (salloc_opt init sc nx))
+                     (calloc ce (fst (salloc_opt init sc nx)) (snd (salloc_list (firstn i cls) (fst (salloc_opt init sc nx)) (snd (salloc_opt init sc nx)))))).
+    { eapply scope_ok_mono; [exact Hok1 | lia]. }
+    destruct (branch_block n IHl body g _ _ (Some P) (k_cont K) _ _ E1 fr4 out1 o2 E2 out2 Hb Gb Wbody Ag4 Hokb) as [r5 [R5 Post5]].
+    assert (W5 : forall fr5, preserved fr4 fr5 (fst (salloc_opt init sc nx))
+                    (calloc ce (fst (salloc_opt init sc nx)) (snd (salloc_list (firstn i cls) (fst (salloc_opt init sc nx)) (snd (salloc_opt init sc nx))))) ->
+                 preserved fr fr5 sc nx).
+    { intros fr5 Pr5. eapply preserved_trans; [exact Pr4|]. eapply preserved_weaken; [exact Pr5|].
+      intros x Hx Hv. destruct (weaken_after_opt init sc nx x Hok Hx Hv) as [A B]. split; [lia | exact B]. }
+    destruct o2; simpl in Post5, H; inversion H; subst o E' out'; clear H.
+    + destruct Post5 as [fr5 [-> [Pr5 [Ext [Eb [HE AgB]]]]]].
+      eexists. split; [eapply reach_trans; [exact Pre|]; eapply reach_trans; [exact R5 | apply Final]|].
+      pose proof (Leave fr5 E2 Ext Eb HE AgB) as L.
+      simpl. eexists. split; [reflexivity|]. split; [apply W5; exact Pr5|]. split; [eexists [], _; split; [reflexivity | exact L] | intros _; exact L].
+    + destruct Post5 as [fr5 [-> [Pr5 [Ext [Eb [HE AgB]]]]]].
+      eexists. split; [eapply reach_trans; [exact Pre|]; eapply reach_trans; [exact R5 | apply Final]|].
+      pose proof (Leave fr5 E2 Ext Eb HE AgB) as L.
+      simpl. eexists. split; [reflexivity|]. split; [apply W5; exact Pr5|]. split; [eexists [], _; split; [reflexivity | exact L] | intros _; exact L].
+    + destruct Post5 as [fr5 [-> [Pr5 [Ext [Eb [HE AgB]]]]]].
+      eexists. split; [eapply reach_trans; [exact Pre | exact R5]|].
+      pose proof (Leave fr5 E2 Ext Eb HE AgB) as L.
+      simpl. eexists. split; [reflexivity|]. split; [apply W5; exact Pr5|]. split; [eexists [], _; split; [reflexivity | exact L] | discriminate].
+    + subst r5. eexists. split; [eapply reach_trans; [exact Pre | exact R5] | reflexivity].
+Qed.
+
 (* ------------------------------------------------------------------ all statements *)
 
 Lemma step_exec n : P_exec n -> P_list n -> P_loop n -> P_exec (S n).
@@ -985,7 +1226,8 @@ Proof.
     rewrite Hs. eapply for_case; eauto.
   - eapply sim_break; eauto.
   - eapply sim_continue; eauto.
-  - simpl in Hwf. discriminate.
+  - assert (Hs : fst (salloc (SSwitch init tag cls) sc nx) = sc) by (rewrite salloc_scope; reflexivity).
+    rewrite Hs. eapply switch_case; eauto.
   - simpl in Hwf. discriminate.
 Qed.
 
@@ -1009,29 +1251,77 @@ Proof. split; [intros i [] | constructor]. Qed.
 
 (** cfg.go swaps a default clause that is not last with the last clause; inside the fragment the
     default clause is last, so the compiled program is the program itself. *)
+Definition wfc (c : stmt) : bool := match c with SCase _ body _ => forallb wf body | _ => false end.
+
+Definition norm_ok (s : stmt) : Prop := (wf s = true -> norm s = s) /\ (wfc s = true -> norm s = s).
+
+Lemma map_norm_wf l : Forall norm_ok l -> forallb wf l = true -> map norm l = l.
+Proof.
+  induction 1 as [|s l Hs Hl IH]; simpl; intros W; [reflexivity|].
+  apply andb_prop in W. destruct W as [W1 W2]. rewrite (proj1 Hs W1), (IH W2). reflexivity.
+Qed.
+
+Lemma map_norm_wfc l : Forall norm_ok l -> forallb wfc l = true -> map norm l = l.
+Proof.
+  induction 1 as [|s l Hs Hl IH]; simpl; intros W; [reflexivity|].
+  apply andb_prop in W. destruct W as [W1 W2]. rewrite (proj2 Hs W1), (IH W2). reflexivity.
+Qed.
+
+Lemma first_default_last t cls : forall k i, shape_ok t cls = true -> first_default cls k = Some i ->
+  i = k + Nat.pred (length cls).
+Proof.
+  induction cls as [|c rest IH]; intros k i Hs Hf; simpl in *; [discriminate|].
+  destruct c; try discriminate.
+  apply andb_prop in Hs. destruct Hs as [Hs Hrest]. apply andb_prop in Hs. destruct Hs as [Hs Hdef].
+  apply andb_prop in Hs. destruct Hs as [Hce _].
+  destruct ce as [|l0|l0]; simpl in Hf, Hce.
+  - inversion Hf; subst i. destruct rest; [simpl; lia | discriminate].
+  - destruct l0; [discriminate|]. simpl in Hf.
+    destruct rest as [|c1 rest']; [discriminate|]. rewrite (IH (S k) i Hrest Hf). simpl. lia.
+  - destruct l0 as [|e [|e' l1]]; try (destruct t; discriminate). simpl in Hf.
+    destruct rest as [|c1 rest']; [discriminate|]. rewrite (IH (S k) i Hrest Hf). simpl. lia.
+Qed.
+
+Lemma swap_default_id t cls : shape_ok t cls = true -> swap_default cls = cls.
+Proof.
+  intros Hs. unfold swap_default. destruct (first_default cls 0) as [i|] eqn:Hf; [|reflexivity].
+  rewrite (first_default_last t cls 0 i Hs Hf). simpl. rewrite Nat.eqb_refl. reflexivity.
+Qed.
+
+Lemma norm_wf_both s : norm_ok s.
+Proof.
+  induction s using stmt_ind2; split; simpl; intros W; try reflexivity; try discriminate.
+  - rewrite (map_norm_wf b H W). reflexivity.
+  - apply andb_prop in W. destruct W as [W We]. apply andb_prop in W. destruct W as [W Wt].
+    apply andb_prop in W. destruct W as [_ Wi].
+    rewrite (map_norm_wf t H0 Wt).
+    assert (Hi : match init with Some s => Some (norm s) | None => None end = init).
+    { destruct init; simpl in *; [rewrite (proj1 H Wi)|]; reflexivity. }
+    rewrite Hi. destruct e as [l|]; simpl in *; [rewrite (map_norm_wf l H1 We)|]; reflexivity.
+  - repeat (apply andb_prop in W; let W' := fresh "W" in destruct W as [W W']).
+    rewrite (map_norm_wf body H1 W4).
+    assert (Hi : match init with Some s => Some (norm s) | None => None end = init).
+    { destruct init; simpl in *; [rewrite (proj1 H W6)|]; reflexivity. }
+    assert (Hp : match post with Some s => Some (norm s) | None => None end = post).
+    { destruct post; simpl in *; [rewrite (proj1 H0 W5)|]; reflexivity. }
+    rewrite Hi, Hp. reflexivity.
+  - apply andb_prop in W. destruct W as [W Wb]. apply andb_prop in W. destruct W as [W Wtag].
+    apply andb_prop in W. destruct W as [W Wshape]. apply andb_prop in W. destruct W as [W Wne].
+    apply andb_prop in W. destruct W as [W Wleaf]. apply andb_prop in W. destruct W as [_ Wi].
+    rewrite (map_norm_wfc cls H0 Wb), (swap_default_id _ _ Wshape).
+    assert (Hi : match init with Some s => Some (norm s) | None => None end = init).
+    { destruct init; simpl in *; [rewrite (proj1 H Wi)|]; reflexivity. }
+    rewrite Hi. reflexivity.
+  - rewrite (map_norm_wf body H W). reflexivity.
+Qed.
+
+Lemma norm_wf s : wf s = true -> norm s = s.
+Proof. apply norm_wf_both. Qed.
+
 Lemma map_norm_id l : Forall (fun s => wf s = true -> norm s = s) l -> forallb wf l = true -> map norm l = l.
 Proof.
   induction 1 as [|s l Hs Hl IH]; simpl; intros W; [reflexivity|].
   apply andb_prop in W. destruct W as [W1 W2]. rewrite (Hs W1), (IH W2). reflexivity.
-Qed.
-
-Lemma norm_wf s : wf s = true -> norm s = s.
-Proof.
-  induction s using stmt_ind2; simpl; intros W; try reflexivity; try discriminate.
-  - rewrite (map_norm_id b H W). reflexivity.
-  - apply andb_prop in W. destruct W as [W We]. apply andb_prop in W. destruct W as [W Wt].
-    apply andb_prop in W. destruct W as [_ Wi].
-    rewrite (map_norm_id t H0 Wt).
-    assert (Hi : match init with Some s => Some (norm s) | None => None end = init).
-    { destruct init; simpl in *; [rewrite (H Wi)|]; reflexivity. }
-    rewrite Hi. destruct e as [l|]; simpl in *; [rewrite (map_norm_id l H1 We)|]; reflexivity.
-  - repeat (apply andb_prop in W; let W' := fresh "W" in destruct W as [W W']).
-    rewrite (map_norm_id body H1 W4).
-    assert (Hi : match init with Some s => Some (norm s) | None => None end = init).
-    { destruct init; simpl in *; [rewrite (H W6)|]; reflexivity. }
-    assert (Hp : match post with Some s => Some (norm s) | None => None end = post).
-    { destruct post; simpl in *; [rewrite (H0 W5)|]; reflexivity. }
-    rewrite Hi, Hp. reflexivity.
 Qed.
 
 Lemma norm_program p : wf_program p = true -> map norm p = p.
